@@ -15,6 +15,8 @@ limitations under the License.
 
 package db
 
+import "github.com/facebookincubator/dns/dnsrocks/dnsdata/rdb"
+
 // VerifNewDB wraps a caller-supplied backend into a DB (simulation testing only).
 func VerifNewDB(dbi DBI) *DB { return &DB{dbi: dbi} }
 
@@ -36,4 +38,13 @@ func VerifDBI(d *DB) DBI {
 		return nil
 	}
 	return d.dbi
+}
+
+// VerifRDB returns the RocksDB store behind a backend opened with the rocksdb driver, nil for any
+// other backend (simulation testing only).
+func VerifRDB(dbi DBI) *rdb.RDB {
+	if r, ok := dbi.(*rdbdriver); ok {
+		return r.db
+	}
+	return nil
 }
